@@ -8,9 +8,10 @@ import Pog.Model.Surface
                                             the grouping itself is `Pog.tagMapVisitor` (Pog/Model/Surface.lean), re-used.
     generate_client_protocol (256-334)      `protocolSkel`, `protocolImportReqs`
     _generate_client_implementation (74-254) `apiClientSkel`, `implImportReqs`
-    generate_client_mock_class (336-477)    `mockClientSkel`, `mockImportReqs`, `mockTextImports`; its `tag_tuples` argument is NOT the
-                                            visitor's: `MocksEmitter.emit` (emitters/mocks_emitter.py:46-70) builds its own list,
-                                            FIRST tag only, RAW tag string → `mockTuples` (= `Pog.groupMocks`).
+    generate_client_mock_class (336-477)    `mockClientSkel`, `mockImportReqs`, `mockTextImports`; its `tag_tuples` argument is built by
+                                            `MocksEmitter.emit` (emitters/mocks_emitter.py) from its own grouping → `mockTuples`
+                                            (= `Pog.groupMocks`); since the repair of F23 that grouping is the endpoints emitter's in
+                                            the order of the keys, so the list equals the visitor's (`mockTuples_eq_tagTuples`).
 
   A tag tuple is `(tag, class_name, module_name)` in the order of the Python tuple.
 
